@@ -134,7 +134,7 @@ func oracleFailFileReplays(r *CaseRun, prog *Prog) *Violation {
 		return violf("failfile-replay-invocations", "MakeFuzz invoked the property %d times", len(x2.Log))
 	}
 	rp := x2.Log[0]
-	if rp.Outcome() != r.Last.Outcome() || res.Status != "failed" {
+	if !rp.Same(r.Last) || res.Status != "failed" {
 		return violf("failfile-does-not-reproduce", "fail file words %x replay as [%s] (%s), the presented test case was [%s]", words, rp.Outcome(), res.Status, r.Last.Outcome())
 	}
 	return nil
@@ -162,4 +162,36 @@ func genCheckCfg(dt *drv.T, name string, maxChecks int) CheckCfg {
 	cfg.Steps = pick(dt, "steps", 1, 3, 10, 30, 60)
 	cfg.ShrinkNS = -1
 	return cfg
+}
+
+// compareRuns compares the invocation logs of two runs of the same (program, flags, seed). Minimization is
+// deterministic only as long as its deadline is not reached, so runs that came anywhere near it are compared
+// only up to the reproduction of the failure (the deadline cut depends on machine load, not on the library).
+func compareRuns(cfg CheckCfg, r1, r2 *CaseRun, what string) *Violation {
+	n1, n2 := len(r1.X.Log), len(r2.X.Log)
+	full := cfg.ShrinkNS == 0 || (cfg.ShrinkNS > 0 && r1.Obs.Dur.Nanoseconds() < cfg.ShrinkNS/4 && r2.Obs.Dur.Nanoseconds() < cfg.ShrinkNS/4)
+	if !full {
+		lim := r1.FirstBad + 2
+		if r1.FirstBad < 0 {
+			lim = n1
+		}
+		if n1 > lim {
+			n1 = lim
+		}
+		if n2 > lim {
+			n2 = lim
+		}
+	}
+	if n1 != n2 {
+		return violf("rerun-differs", "%s: %d invocations in one run, %d in the other", what, n1, n2)
+	}
+	for i := 0; i < n1; i++ {
+		if a, b := r1.X.Log[i], r2.X.Log[i]; !a.Same(b) {
+			return violf("rerun-differs", "%s: invocation %d was [%s] in one run and [%s] in the other", what, i, a.Outcome(), b.Outcome())
+		}
+	}
+	if full && r1.Obs.Failed != r2.Obs.Failed {
+		return violf("rerun-differs", "%s: verdict differs", what)
+	}
+	return nil
 }
